@@ -260,3 +260,80 @@ def render_ty(t):
     if k == 'infer':
         return '_'
     return t.get('s', '?')
+
+
+def bound_names(node):
+    """identifiers bound inside `node` (let / if-let / while-let patterns, closure params, for patterns, match arms),
+    in order of first binding"""
+    out = []
+
+    def add(p):
+        for n in pat_idents(p):
+            if n and n not in out:
+                out.append(n)
+
+    for n in walk(node):
+        k = n.get('k')
+        if k == 'let' and 'pat' in n:
+            add(n['pat'])
+        elif k == 'closure':
+            for p in n['params']:
+                add(p)
+        elif k == 'for':
+            add(n['pat'])
+        elif k == 'match':
+            for a in n['arms']:
+                add(a['pat'])
+    return out
+
+
+def alpha(node, keep=()):
+    """deep copy of `node` with every locally bound identifier renamed to v0, v1, .. in order of first binding
+    (names in `keep` are left alone): two code fragments that differ only in the names of their locals render equal"""
+    names = [n for n in bound_names(node) if n not in keep]
+    m = {n: 'v%d' % i for i, n in enumerate(names)}
+
+    def cp(x):
+        if isinstance(x, list):
+            return [cp(y) for y in x]
+        if not isinstance(x, dict):
+            return x
+        y = {k: cp(v) for k, v in x.items()}
+        if y.get('k') == 'path' and '::' not in y.get('p', '::') and y['p'] in m:
+            y['p'] = m[y['p']]
+        if y.get('k') == 'ident' and y.get('n') in m:
+            y['n'] = m[y['n']]
+        if y.get('k') == 'struct' and isinstance(y.get('fields'), list):
+            for f in y['fields']:
+                # shorthand field `Foo { x }`: the value is a path that may have been renamed; the field name stays
+                pass
+        return y
+    return cp(node)
+
+
+def inline_literal_lets(block):
+    """copy of a block in which `let x = <literal>;` statements are removed and x is replaced by the literal
+    (only when x is bound once and never assigned)"""
+    if block.get('k') != 'block':
+        return block
+    lits = {}
+    counts = {}
+    for n in walk(block):
+        if n.get('k') == 'let' and 'pat' in n and n['pat'].get('k') == 'ident':
+            counts[n['pat']['n']] = counts.get(n['pat']['n'], 0) + 1
+            if 'init' in n and n['init'].get('k') == 'lit' and not n['pat'].get('mut'):
+                lits[n['pat']['n']] = n['init']
+        if n.get('k') == 'assign' and is_path(n['l_']):
+            counts[n['l_']['p']] = counts.get(n['l_']['p'], 0) + 10
+    lits = {k: v for k, v in lits.items() if counts.get(k) == 1}
+
+    def cp(x):
+        if isinstance(x, list):
+            return [cp(y) for y in x if not (isinstance(y, dict) and y.get('k') == 'let' and 'pat' in y and
+                                             y['pat'].get('k') == 'ident' and y['pat']['n'] in lits and 'init' in y and y['init'].get('k') == 'lit')]
+        if not isinstance(x, dict):
+            return x
+        if x.get('k') == 'path' and x['p'] in lits:
+            return dict(lits[x['p']])
+        return {k: cp(v) for k, v in x.items()}
+    return cp(block)
